@@ -142,11 +142,11 @@ theorem C05_full_verdicts (hinj : ∀ a b, P.M.Reach a → P.M.Reach b → P.key
     state it ends in is the state of a run `frun P k fs` of the concurrent checker — so the theorems above hold of the very
     run that was observed (and its final counts and discoveries, which the check compares with what the checker reported,
     are those of that run). -/
-theorem C05_trace_validation_sound (P : Params Nat Nat Nat) (k : Nat) (dfs : Bool) (es : List Drv.Full.Ev)
+theorem C05_trace_validation_sound (P : Params Nat Nat Nat) (k : Nat) (mode : Drv.Full.Mode) (es : List Drv.Full.Ev)
     (tv : Drv.Full.TV)
-    (h : Drv.Full.replay P k dfs { x := finit P k, reason := [], pieces := [] } 1 es = .ok tv) :
+    (h : Drv.Full.replay P k mode { x := finit P k, reason := [], pieces := [] } 1 es = .ok tv) :
     ∃ fs : List FStep, tv.x = (frun P k fs).1 :=
-  Drv.Full.isRun_replay P k dfs es _ tv 1 (Drv.Full.isRun_refl P (finit P k)) h
+  Drv.Full.isRun_replay P k mode es _ tv 1 (Drv.Full.isRun_refl P (finit P k)) h
 
 /-! ### Non-vacuity: concrete runs of the concurrent checker that reach "all workers gone" without a stop and without an
 early exit — 2 workers on the 5-state graph of `Props/C01.lean` (the round-robin scheduler of `Checker/FullSched.lean`:
